@@ -164,8 +164,19 @@ void from_json(nlohmann::json const& j, VolumeInput& value)
     }
     else
     {
-        // Convert logic string to vector
-        value.logic = detail::string_to_logic(j.at("logic").get<std::string>());
+        // Convert logic string to vector; the writer omits empty logic, which
+        // is valid only for implicit volumes
+        if (auto iter = j.find("logic"); iter != j.end())
+        {
+            value.logic = detail::string_to_logic(iter->get<std::string>());
+        }
+        else
+        {
+            CELER_VALIDATE(value.flags & VolumeInput::Flags::implicit_vol,
+                           << "missing 'logic' for a volume that is not "
+                              "implicit");
+            value.logic.clear();
+        }
         value.bbox = get_bbox(j);
     }
 }
